@@ -125,7 +125,11 @@ namespace hmac_cpp {
     /// \param is_upper Use uppercase hex.
     /// \return HMAC result.
     inline std::string get_hmac(const secure_buffer<uint8_t>& key, const std::string &msg, TypeHash type, bool is_hex = true, bool is_upper = false) {
-        return get_hmac(std::vector<uint8_t>(key.begin(), key.end()), msg, type, is_hex, is_upper);
+        // no plain copy of the key: go through the pointer/length form
+        std::vector<uint8_t> mac = get_hmac(key.data(), key.size(), msg.data(), msg.size(), type);
+        std::string out(reinterpret_cast<const char*>(mac.data()), mac.size());
+        secure_zero(mac.data(), mac.size());
+        return is_hex ? to_hex(out, is_upper) : out;
     }
 
     /// \brief Compute HMAC using string key.
